@@ -191,10 +191,8 @@ META = {
                     "the flag/CI/xdist/xfail routes into the disabled state are decided in C04; here the disabled state itself is checked"],
 }
 
-W.concrete = True
-try:
-    assert behaves_like("[c0, Is(c1)]", ["{x} == {s}"], ["[x0, x1]"], {"c0": 1, "c1": 2, "x0": 1, "x1": 2})
-    assert getitem_like((1, 2), (2, 1), {"c0": 1, "c1": 2, "x0": 2, "x1": 5})
-    assert mixed_ops_typeerror("eq", "in", 1, 1)
-finally:
-    W.concrete = False
+world.prewarm(
+    lambda: behaves_like("[c0, Is(c1)]", ["{x} == {s}"], ["[x0, x1]"], {"c0": 1, "c1": 2, "x0": 1, "x1": 2}),
+    lambda: getitem_like((1, 2), (2, 1), {"c0": 1, "c1": 2, "x0": 2, "x1": 5}),
+    lambda: mixed_ops_typeerror("eq", "in", 1, 1),
+)
